@@ -12,3 +12,15 @@ claim("C12", "proof",
       "Lean theorems over the model of the VM's index arithmetic: row-major exactness/injectivity/bounds, range and slice composition denotation (two levels), string index/slice, shape guards; _partial + _counterexample where the pinned code is wrong; tied to object.c/vmexec.c by running the real handlers as single instructions against the model, exhaustive small scope",
       "Lean kernel + standard axioms; model written by hand (sub-agent) and tied by correspondence; int overflow in slice arithmetic not modelled",
       "Lean 4 proofs by list induction + exhaustive small-scope model<->C correspondence", "DESIGN.md §3 C12")
+claim("C17", "proof",
+      "Lean theorems over M-FFI (mirror of back/vmffi.c + the descriptor emitter of front/emit.c): the VM's 32-bit offset walk puts every leaf of every nested record at its C offsetof and stays inside sizeof (induction on the type); unpack(pack r) = r; the emitted descriptor of any arity is parsed back as declared and consumed exactly; missing library/symbol never call; nil operand => ffi_fail proved partially (counterexample: nil operand followed by a non-nil record operand). Tied by correspondence: h_ffi includes vmffi.c and runs the static walk functions against nmdrv; emitted descriptors compared with the real front end; generated extern signatures + gcc-compiled callees run end-to-end. Partial: register/memory classification and libffi itself are runtime ABI, observed only end-to-end",
+      "Lean kernel + propext/Classical.choice/Quot.sound; hand model tied to vmffi.c/emit.c only on the explored inputs; libffi is outside the model; gcc as layout oracle",
+      "Lean 4 mutual structural induction over nested record types; model<->C differential correspondence; generated C callees", "DESIGN.md §3 C17 + docs/DESIGN.add.C17.md")
+claim("C01", "proof",
+      "every sample and seeded family program is run on the real VM (ASan/UBSan, asserts on) and replayed instruction by instruction on the Lean VM model over the proved heap model; theorems cover the VM's guard logic where stated in Props/C01; known pinned-tree defects are replayed as probes",
+      "Lean kernel + standard axioms; M-VM is a hand model tied by lockstep traces on the explored programs; static typing => operand tags is validated dynamically, not proved",
+      "Lean 4 model of the VM + per-instruction lockstep correspondence; sanitizer verdict as the failing-input oracle", "DESIGN.md §3 C01")
+claim("C04", "proof",
+      "heap level proved in Lean for all heaps/roots/histories (a collection keeps every reachable cell bit-identical with its edges, touches nothing else of the machine); VM level: every program is run under several schedules and heap sizes on the real VM and on the Lean VM in lockstep, outcomes compared across schedules",
+      "Lean kernel + standard axioms; roots-complete-at-safe-points is validated by lockstep replay, not proved; C-stack depth of the recursive marker is runtime",
+      "Lean 4 refinement of the collector to a reachability spec + schedule-differential lockstep correspondence", "DESIGN.md §3 C04")
